@@ -128,8 +128,8 @@ def oracle(job, ob):
     if ob.get("script_changed"):
         bad.append(("setup-modifies-script", "setup() changed the caller's script: %s" % ob["script_changed"][0]["field"], ob["script_changed"][:3], []))
     for when, so in ob.get("sims", []):
-        if manual:
-            break
+        if manual or all(U):
+            break          # explicit sample() calls add records; a drive that hit its iteration cap did not finish the run
         if so["hash"] != out["hash"]:
             bad.append(("simulate-records:%s" % when, "simulate_script() on the same engine object (%s the step-by-step run) does not record what the step-by-step run of the "
                         "same script records" % when, {"t": so["t"][:10], "n": so["nsamples"]}, {"t": out["t"][:10], "n": out["nsamples"]}))
